@@ -689,10 +689,11 @@ def text_at(proj, ns, loc, path):
 # ---------------------------------------------------------------- string classes, pairwise coverage
 
 CLASS_SAMPLES = {            # one representative text per class (used by the class-matrix projects)
-    "quote": '"', "backslash": "\\", "c0": "\x01\n", "c1": "\x85", "nbsp": "\xa0", "zw": "‍", "u2028": " ",
-    "astral": "\U0001F600", "combining": "é", "empty": "", "close_script": "</script>", "comment": "<!--",
+    "quote": '"', "backslash": "\\", "c0": "\x01\n", "c1": "\x85", "nbsp": "\xa0", "zw": "\u200d", "u2028": "\u2028",
+    "astral": "\U0001F600", "combining": "e\u0301", "empty": "", "close_script": "</script>", "comment": "<!--",
 }
 CLASSES = list(CLASS_SAMPLES)
+ZW_CHARS = "\u200b\u200c\u200d\u2060\ufeff"
 
 
 def classify(s):
@@ -710,9 +711,9 @@ def classify(s):
         out.add("c1")
     if "\xa0" in s:
         out.add("nbsp")
-    if any(c in s for c in "​‌‍⁠﻿"):
+    if any(c in s for c in ZW_CHARS):
         out.add("zw")
-    if " " in s or " " in s:
+    if "\u2028" in s or "\u2029" in s:
         out.add("u2028")
     if any(ord(c) > 0xFFFF for c in s):
         out.add("astral")
@@ -835,3 +836,133 @@ def matrix_project(rng, use_ns, shift=0, n_units=12):
             j += 1
         units[ns] = per
     return Project(locales, namespaces, {}, units)
+
+
+# ---------------------------------------------------------------- structured projects for the C11 pairwise audit
+
+def ascii_text(rng):
+    return " ".join(rng.choice(["alpha", "beta", "gamma", "delta", "Hello", "world", "ok", "x1", "Z"]) for _ in range(rng.choice([1, 2, 3])))
+
+
+def structured_project(rng, nloc=3, nns=0, depth=1, mode="rich", inherit=True, ascii_idx=(), focus=None):
+    """a project with a prescribed shape.  mode "rich": every group (down to `depth` nested subgroups) holds every kind
+    of value, one plain key per class of adversarial text, an exact duplicate, a near duplicate and a foreign key that
+    copies a text; "zero": no string literal anywhere (numbers, variables, components / ranges / plurals over variables);
+    "one": "zero" plus a single plain text (class `focus`), written twice and copied by a foreign key; "small": "one"
+    plus a few more texts.  Locales listed in `ascii_idx` (indices) only use plain ASCII words.  Non-default locales
+    leave keys out (implicit default), set keys to null (explicit default), and one of them leaves a whole subgroup
+    out; they share one text among themselves and one with the default locale.  With `inherit` the second locale
+    inherits from the default one when there are two locales, the third from the second otherwise."""
+    locales = rng.sample(LOCALE_POOL, nloc)
+    namespaces = MORE_NS[:nns] if nns else None
+    inherits = {}
+    if inherit and nloc == 2:
+        inherits[locales[1]] = locales[0]
+    elif inherit and nloc >= 3:
+        inherits[locales[2]] = locales[1]
+    uid = [0]
+
+    def text(li, cls=None):
+        uid[0] += 1
+        if li in ascii_idx:
+            return "%s %d" % (ascii_text(rng), uid[0])
+        if cls == "empty":
+            return ""
+        if cls:
+            return CLASS_SAMPLES[cls] + "%s%d" % (rng.choice(WORDS), uid[0])
+        return gen_text(rng) + str(uid[0])
+
+    def var_values(prefix):
+        return [
+            ("n1", {"kind": "other", "json": rng.choice([3, -4, 2.5, True])}),
+            ("v2", {"kind": "other", "json": "{{ x }}"}),
+            ("b3", {"kind": "other", "json": "{{ x }}{{ y }}"}),
+            ("c4", {"kind": "other", "json": "<b>{{ x }}</b>"}),
+            ("r5", {"kind": "other", "json": [["{{ count }}", 0], ["{{ count }}"]]}),
+            ("p6", {"kind": "plural", "forms": [("one", "{{ count }}"), ("other", "{{ count }}")]}),
+        ]
+
+    def group(li, d, prefix, ns, shared):
+        tree = []
+        if mode in ("zero", "one", "small"):
+            if mode != "zero" and d == depth:            # the single text sits in the deepest group
+                t = shared["single"][li]
+                tree.append(("k0", {"kind": "plain", "json": t, "text": t}))
+                tree.append(("k0d", {"kind": "plain", "json": t, "text": t}))
+                tree.append(("f0", {"kind": "other", "json": "$t(%s%s)" % ((ns + ":") if ns else "", ".".join(prefix + ["k0"])),
+                                    "target": prefix + ["k0"]}))
+                if mode == "small":
+                    for j in range(rng.choice([1, 2, 4])):
+                        t2 = text(li, rng.choice(CLASSES))
+                        tree.append(("k%d" % (j + 1), {"kind": "plain", "json": t2, "text": t2}))
+            tree += var_values(prefix)
+        else:
+            t0 = text(li, focus)
+            tree.append(("k0", {"kind": "plain", "json": t0, "text": t0}))
+            tree.append(("k0d", {"kind": "plain", "json": t0, "text": t0}))                       # exact duplicate
+            tn = near_duplicate(rng, t0) if t0 else "x"
+            tree.append(("k0n", {"kind": "plain", "json": tn, "text": tn}))                       # near duplicate
+            tree.append(("f0", {"kind": "other", "json": "%s$t(%s%s)" % ("", (ns + ":") if ns else "", ".".join(prefix + ["k0"])),
+                                "target": prefix + ["k0"]}))                                      # foreign key copying k0
+            for c in CLASSES:
+                if li in ascii_idx and c == "empty":
+                    continue
+                t = text(li, c)
+                tree.append(("q_" + c, {"kind": "plain", "json": t, "text": t}))
+            tree.append(("sh", {"kind": "plain", "json": shared["all" if li == 0 or rng.random() < 0.5 else "others"],
+                                "text": None}))
+            tree[-1][1]["text"] = tree[-1][1]["json"]
+            if li != 0:
+                tree.append(("sh2", {"kind": "plain", "json": shared["others"], "text": shared["others"]}))
+            else:
+                tree.append(("sh2", {"kind": "plain", "json": shared["all"] + "!", "text": shared["all"] + "!"}))
+            a, b = text(li), text(li)
+            tree += [
+                ("n1", {"kind": "other", "json": rng.choice([3, -4, 2.5, True])}),
+                ("v2", {"kind": "other", "json": "%s{{ x }}%s" % (a, b)}),
+                ("c4", {"kind": "other", "json": "%s<b>%s</b>" % (text(li), text(li))}),
+                ("r5", {"kind": "other", "json": [[text(li), 0], [text(li), "1..5"], [text(li)]]}),
+                ("p6", {"kind": "plural", "forms": [("one", text(li)), ("other", "{{ count }}" + text(li))]}),
+            ]
+        if d < depth:
+            tree.append(("s7", {"kind": "sub", "sub": group(li, d + 1, prefix + ["s7"], ns, shared)}))
+        return tree
+
+    def thin(tree, li, top=True):
+        """non-default locales: leave keys out / null them; locale 1 leaves the whole subgroup out"""
+        out = []
+        for k, node in tree:
+            if node["kind"] == "sub":
+                if li == 1 and top:
+                    out.append((k, {"kind": "absent"}))
+                else:
+                    out.append((k, {"kind": "sub", "sub": thin(node["sub"], li, False)}))
+            elif k in ("k0", "k0d", "f0", "sh", "sh2", "k0n"):
+                out.append((k, node))
+            elif k == "n1":
+                out.append((k, {"kind": "absent"}))
+            elif k == "v2":
+                out.append((k, {"kind": "null", "json": None}))
+            elif rng.random() < 0.15 and node["kind"] != "plural":
+                out.append((k, {"kind": "null", "json": None}))
+            elif rng.random() < 0.15:
+                out.append((k, {"kind": "absent"}))
+            else:
+                out.append((k, node))
+        return out
+    units = {}
+    for ns in (namespaces or [None]):
+        uid[0] += 1
+        shared = {"all": "shared with default %d" % uid[0], "others": "shared by the others %d" % uid[0]}
+        one = text(-1, focus) if focus != "empty" else ""
+        shared["single"] = {li: (one if (li == 0 or rng.random() < 0.6) else text(li, focus)) for li in range(nloc)}
+        for li in ascii_idx:
+            shared["single"][li] = "plain %d" % uid[0]
+        per = {}
+        for li, loc in enumerate(locales):
+            t = group(li, 0, [], ns, shared)
+            per[loc] = t if li == 0 else thin(t, li)
+            if li:
+                fix_foreign(per[loc])
+        units[ns] = per
+    return Project(locales, namespaces, inherits, units)
